@@ -76,7 +76,7 @@ def body_unpainted(case, rec):
         if s.name in out:
             raise Violation(f"duplicate output scaffold {s.name}")
         out[s.name] = conv.plain_rows(s.rows, with_tags=False)
-    want = {n: r for n, r in case["input"]}
+    want = {n: [x[:5] if x[0] == "F" else x for x in r] for n, r in case["input"]}
     if set(out) != set(want):
         raise Violation(f"scaffold names differ: missing {sorted(set(want) - set(out))} extra {sorted(set(out) - set(want))}")
     for n in want:
@@ -94,8 +94,9 @@ def body_painted(case, rec):
         raise Violation(f"expected only the primary assembly, got keys {keys}")
     prefix = case["prefix"]
     present = {r[1] for _pn, rows in case["map"] for r in rows if r[0] == "F"}
-    want_painted = sorted(r for n, r in case["input"] if n in present)
-    want_unplaced = {n: r for n, r in case["input"] if n not in present}
+    bare = [[n, [x[:5] if x[0] == "F" else x for x in r]] for n, r in case["input"]]
+    want_painted = sorted(r for n, r in bare if n in present)
+    want_unplaced = {n: r for n, r in bare if n not in present}
     got_painted = []
     lens = {}
     for s in res.assemblies[None].scaffolds:
@@ -127,7 +128,20 @@ def body_cli(case, rec):
     d = remap.scratch_dir("vf-c08-")
     try:
         inp = d / "input.tpf"
-        inp.write_text(remap.input_text(case, "tpf"))
+        text = remap.input_text(case, "tpf")
+        if len(case["input"]) % 2 == 0:
+            # blank lines between the scaffolds of the input TPF (and one at the top), as hand-edited files have them
+            lines = text.split("\n")
+            out_lines, prev = [""], None
+            for ln in lines:
+                f_ = ln.split("\t")
+                name_ = f_[2] if len(f_) > 2 and f_[0] != "GAP" else prev
+                if prev is not None and name_ != prev:
+                    out_lines.append("")
+                out_lines.append(ln)
+                prev = name_
+            text = "\n".join(out_lines)
+        inp.write_text(text)
         mp = d / "map.agp"
         mp.write_text(remap.map_agp_text(case))
         out = d / "out" / "x.1.agp"
@@ -140,7 +154,7 @@ def body_cli(case, rec):
         if asm_files != ["x.1.primary.curated.agp"]:
             raise Violation(f"expected only x.1.primary.curated.agp, got {asm_files}")
         got = {n: r for n, r in ref.read_agp((out.parent / asm_files[0]).read_text())[1]}
-        want = {n: r for n, r in case["input"]}
+        want = {n: [x[:5] if x[0] == "F" else x for x in r] for n, r in case["input"]}
         if got != want:
             raise Violation(f"written primary assembly differs from input: {got} vs {want}")
         info = yaml.safe_load((out.parent / "x.1.info.yaml").read_text())
@@ -194,6 +208,12 @@ def cases(draw, painted=False, small=False):
         case["debug_log"] = True  # root logger at DEBUG during the run (API) / --log-level DEBUG (CLI)
     elif k == 1:
         case["fuse_twice"] = True  # the fused assemblies are asked for twice; the second answer is judged
+    elif k == 3:
+        # second curation round: the input is the AGP an earlier round wrote, its cut contigs carry the tag `Cut`
+        for _n, rows in inp:
+            for r in rows:
+                if r[0] == "F" and draw(st.integers(0, 2)) == 0:
+                    r.append(["Cut"])
     elif k == 2:
         # the input assembly object was used before, for an edited map with whole scaffolds inverted or tagged Haplotig
         em = draw(gen.model_map(inp, t, cut=draw(st.booleans())))
